@@ -222,7 +222,8 @@ def run(P, rep, tier):
                         + '; ' + '; '.join('%s:%s %s' % (k[0], k[1], v) for k, v in sorted(CURSOR_COMPARE.items())),
                         'R13.11: values of the input enter through ' + ', '.join('%s.%s (%s)' % (k[0], k[1], v) for k, v in sorted(INPUT_VALUE_FIELDS.items())) + '; a narrowing conversion does not turn a non-zero value into 0; '
                         'divisors that are not values of the input (HashMap.capacity, Type.size, alignments) are invariants of the compiler\'s own data and are not judged',
-                        'R13.12: a test of a local that was initialised with an evaluator call and never assigned again is a test of that call; lazy operands are ' + '; '.join('%s: %s' % (k, ', '.join(sorted(v[1]))) for k, v in sorted(LAZY_OPERANDS.items())),
+                        'R13.12: a function that on every path returns 1 exactly after a non-zero test and 0 exactly after a zero test of an evaluator result for one Node parameter (derived from its return states) is a test of that node\'s value; '
+                        'a test of a local that was initialised with an evaluator call and never assigned again is a test of that call; lazy operands are ' + '; '.join('%s: %s' % (k, ', '.join(sorted(v[1]))) for k, v in sorted(LAZY_OPERANDS.items())),
                         'a boolean field that every store sets to true only where a sub-object of the owner has validated kinds (derived, listed under derived_tables) implies those kinds where the field '
                         'is tested; the sub-object is not replaced afterwards; records also built by initializer lists are excluded',
                         'two pointer variables of which one is a plain copy of the other, neither assigned since, are equal: a store through one is a store through the other',
@@ -242,6 +243,7 @@ def run(P, rep, tier):
         'nullable_results': sorted(f for f in W.nullable_rets if f in W.fn_unit),
         'constructor_kinds': {f: (k if isinstance(k, str) else 'param#%d' % (k[1] + 1)) for f, k in sorted(W.ret_kind.items())},
         'fixpoint_rounds': W.rounds,
+        'truth_helpers (return the truth value of an evaluator result for the parameter)': {f: 'param#%d' % (i + 1) for f, i in sorted(W.truth_helpers.items())},
         'flags_set_only_for_validated_kinds': {'%s.%s' % k: {suf: sorted(K) for suf, K in v.items()} for k, v in sorted(W.flag_kinds.items())},
     }
     rel = typing_relation(W, engs)
@@ -1764,10 +1766,12 @@ def r1312(W, engs, rep):
         if un == 'codegen.c':
             continue
         for node, c, S, vals in e.calls:
-            if c not in W.evaluators or not vals or vals[0].path is None or '->' not in vals[0].path:
+            ai = 0 if c in W.evaluators else W.truth_helpers.get(c)      # a helper that returns the truth value of its node evaluates it
+            if ai is None or ai >= len(vals) or vals[ai].path is None or '->' not in vals[ai].path:
                 continue
-            base, fld = vals[0].path.rsplit('->', 1)
-            if fld not in lazy_fields or L.rec_of(node.args()[0].strip_all().inner[0].type if node.args()[0].strip_all().kind == 'MemberExpr' else None) != 'Node':
+            base, fld = vals[ai].path.rsplit('->', 1)
+            an = node.args()[ai].strip_all()
+            if fld not in lazy_fields or L.rec_of(an.inner[0].type if an.kind == 'MemberExpr' else None) != 'Node':
                 continue
             kf = S.vs.get(base + '->kind')
             if kf is None:
@@ -1791,7 +1795,7 @@ def r1312(W, engs, rep):
                     why = 'on the outcome `->%s is %s`' % (ctrl, 'nonzero' if got[0] else 'zero')
                 msg = ('%s() evaluates the operand `%s` of a %s node %s; C evaluates it only if the %s operand is %s, and the evaluator diagnoses what it evaluates (division by zero, '
                        'not a compile-time constant): a valid constant expression such as `%s` is rejected with a diagnostic'
-                       % (f, node.args()[0].src(), K, why, ctrl, 'nonzero' if need else 'zero',
+                       % (f, an.src(), K, why, ctrl, 'nonzero' if need else 'zero',
                           {'ND_LOGAND': '0 && 1/0', 'ND_LOGOR': '1 || 1/0', 'ND_COND': 'x ? 1 : 1/0'}.get(K, '?')))
                 o = obs.get(key)
                 if o is None or (not ok and o[0]):
